@@ -775,10 +775,21 @@ def check_models(d):
     fock = F.Fock(F.modes_of(bases))
     E = F.elements_oracle(fock, terms, bases)
     M = F.true_matrix_elements(fock, terms, bases)
+    # history: an array obtained earlier from the same builder and then modified in place (e.g. `op *= -mu` while
+    # assembling a Hamiltonian) must not change what the builder returns now
+    ok0, O0 = case.guard(call_model, d)
+    if ok0:
+        try:
+            O0 *= -0.3
+            O0.apply_to_arrays(lambda b: b + 1.0)
+        except Exception:  # noqa: BLE001  (in-place arithmetic is not this contract's subject)
+            pass
     with warnings.catch_warnings(record=True) as w:
         warnings.simplefilter("always")
         ok, O = case.guard(call_model, d)
     if ok:
+        if ok0 and O is O0:
+            case.bad("model_fresh_object_per_call", "the builder returned the very object it returned before (in-place changes of a result leak into later calls)")
         if w:
             case.bad("model_no_warning", str(w[0].message)[:160])
         try:
